@@ -133,4 +133,6 @@ def queries(tier, seed):
     if tier == "thorough":
         qs.append(q_saveload("1+sig", ["n1", "sig"], 3, 10))
         qs.append(q_saveload("three2", ["n2", "n2sim", "n1"], 0, 10))
+        qs.append(q_saveload("one_wide", ["n2"], 0, 40))
+        qs.append(q_saveload("sig+sim", ["sig", "n2sim"], 9, 10))
     return qs
